@@ -153,7 +153,7 @@ class Interp:
             fn, owner = m.method(cls, name, after)
             node = getattr(fn, 'node', None)
         if not isinstance(node, ast.FunctionDef):
-            return MISSING
+            return self.class_level_container(o, name)
         decos = [ast.unparse(d).split('(')[0] for d in node.decorator_list]
 
         def call(*a, **k):
@@ -178,6 +178,42 @@ class Interp:
         if 'staticmethod' in decos:
             return lambda *a, **k: self.call(node, list(a), k)
         return call
+
+    def class_level_container(self, o, name):
+        """A class-level `name = {}` / `[]` / `set()` (or other literal) of the mock's source class: one object shared by every mock of
+        that class within this interpreter, as the class attribute is shared by every instance at run time."""
+        src = getattr(o, '__srcclass__', None) if not isinstance(o, type) else None
+        if not src:
+            return MISSING
+        m, cls = src
+        try:
+            mro = m.mro(cls)
+        except Exception:
+            return MISSING
+        for c in mro:
+            try:
+                ns = m.clsns(c)
+            except Exception:
+                continue
+            if name not in ns:
+                continue
+            raw = ns[name]
+            if not (isinstance(raw, tuple) and raw and raw[0] == 'expr' and isinstance(raw[1], ast.AST)):
+                return MISSING
+            e = raw[1]
+            simple = isinstance(e, (ast.Dict, ast.List, ast.Set, ast.Tuple, ast.Constant)) or \
+                (isinstance(e, ast.Call) and isinstance(e.func, ast.Name) and e.func.id in ('dict', 'list', 'set', 'frozenset', 'deque', 'tuple'))
+            if not simple:
+                return MISSING
+            cache = self.__dict__.setdefault('_class_level', {})
+            key = (id(m), c, name)
+            if key not in cache:
+                try:
+                    cache[key] = self.ev(e, {})
+                except (Unsupported, Raised):
+                    return MISSING
+            return cache[key]
+        return MISSING
 
     def generate(self, fn, args, kwargs=None):
         "call a generator function; returns the list of yielded values"
